@@ -10,6 +10,7 @@ pub mod c17;
 pub mod cmd;
 pub mod coldstart;
 pub mod sessions;
+pub mod pysessions;
 pub mod oligo_exec;
 pub mod c06;
 pub mod c07;
